@@ -25,32 +25,42 @@ def execute(c):
     from hdc.algo.ops import autocorr, autocorr_1d, autocorr_tyx
 
     vals = c["vals"]  # ints or None
+    ND = c.get("nd", -3000)
     xi = np.array([ND if v is None else v for v in vals], dtype="int16")
     xf = np.array([np.nan if v is None else float(v) for v in vals], dtype=c.get("fdtype", "float64"))
     rs, apis = [], []
     watch = core.Watch(xi, xf)
 
-    def put(name, r):
-        apis.append(name)
-        rs.append(core.rat(np.asarray(r).reshape(-1)[0]))
+    excs = []
 
-    put("1d_int", autocorr_1d(xi, ND))
-    put("1d_float", autocorr_1d(xf))
-    put("yxt_int", autocorr(xi.reshape(1, 1, -1), ND))
-    put("yxt_float", autocorr(xf.reshape(1, 1, -1)))
-    put("tyx_int", autocorr_tyx(xi.reshape(-1, 1, 1), ND))
-    put("tyx_float", autocorr_tyx(xf.reshape(-1, 1, 1)))
+    def put(name, thunk):
+        apis.append(name)
+        try:
+            r = thunk()
+            rs.append(core.rat(np.asarray(r).reshape(-1)[0]))
+            excs.append("")
+        except Exception as ex:        # the error path is an event too
+            rs.append("0")
+            excs.append(type(ex).__name__)
+
+    put("1d_int", lambda: autocorr_1d(xi, ND))
+    put("1d_float", lambda: autocorr_1d(xf))
+    put("yxt_int", lambda: autocorr(xi.reshape(1, 1, -1), ND))
+    put("yxt_float", lambda: autocorr(xf.reshape(1, 1, -1)))
+    put("tyx_int", lambda: autocorr_tyx(xi.reshape(-1, 1, 1), ND))
+    put("tyx_float", lambda: autocorr_tyx(xf.reshape(-1, 1, 1)))
     if c.get("accessor"):
         for dims in (("time", "y", "x"), ("y", "x", "time")):
             shape = [1, 1, 1]
             shape[dims.index("time")] = len(xi)
             da = xr.DataArray(xi.reshape(shape), dims=dims, attrs={"nodata": ND})
-            put("acc_" + dims[0], da.hdc.algo.autocorr())
-            put("acc_dask_" + dims[0], da.chunk({"y": 1, "x": 1}).hdc.algo.autocorr().compute())
+            put("acc_" + dims[0], lambda: da.hdc.algo.autocorr())
+            put("acc_dask_" + dims[0], lambda: da.chunk({"y": 1, "x": 1}).hdc.algo.autocorr().compute())
             if dims[0] == "time" and len(xi) > 4:
-                put("acc_dask_timechunked", da.chunk({"time": 2}).hdc.algo.autocorr().compute())
+                put("acc_dask_timechunked", lambda: da.chunk({"time": 2}).hdc.algo.autocorr().compute())
     c["data"] = ["nan" if v is None else str(v) for v in vals]
     c["rs"], c["apis"] = rs, apis
+    c["exc"] = next((f"{a}:{e}" for a, e in zip(apis, excs) if e), "")
     c["inmod"] = watch.changed()
     c["f64"] = [a.startswith("1d_") for a in apis]   # autocorr_1d returns the unrounded float64
     return c
@@ -62,7 +72,10 @@ def gen_cases(tier, seed):
     cases = []
 
     def add(vals, accessor=False):
-        cases.append({"tid": len(cases) + 1, "vals": vals, "accessor": accessor})
+        # the nodata value itself varies (0 is falsy, -1 / 255 sit next to data); valid cells never equal it
+        used = {v for v in vals if v is not None}
+        nd = next(x for x in rng.sample([-3000, 0, -1, 255, 32767], 5) if x not in used)
+        cases.append({"tid": len(cases) + 1, "vals": vals, "accessor": accessor or rng.random() < 0.1, "nd": nd})
 
     # the MC scope on the real code: all series of length 3..5/6 over {missing,0,1,2,5}
     import itertools
@@ -141,7 +154,7 @@ def run(tier, seed):
 
 def replay(path):
     v = json.loads(open(path).read())
-    c = execute({"vals": v["trace"]["vals"], "accessor": v["trace"].get("accessor", False), "tid": 1})
+    c = execute({"vals": v["trace"]["vals"], "accessor": v["trace"].get("accessor", False), "nd": v["trace"].get("nd", -3000), "tid": 1})
     verdicts, _ = core.validate_batch(MODULE, [c], jobs=1)
     print("replayed", describe(c), "->", verdicts[1])
     if verdicts[1][0] == "REJECT":
